@@ -121,7 +121,8 @@ def symbol_subset(tkey, k=5):
 
 
 def enum_histories(tkey, max_ops, k=5):
-    """all op sequences of length 1..max_ops over add(a), remove(i), dot_none(a), to_string.  Sequences start with an
+    """all op sequences of length 1..max_ops over add(a), remove(i), dot_none(a), to_string (both intelligent_choice
+    values).  Sequences start with an
     add (anything else on an empty element is a no-op); remove(i) only for positions that can exist, dot_none(a) only
     for names that were added before (judged optimistically on the ops, not on their outcome)."""
     syms = symbol_subset(tkey, k)
@@ -134,6 +135,7 @@ def enum_histories(tkey, max_ops, k=5):
             cands += [['remove', i] for i in range(min(len(added), 3))]
             cands += [['dot_none', a] for a in sorted(set(added))]
             cands.append(['to_string', 0])
+            cands.append(['to_string', 1])
         for op in cands:
             p = prefix + [op]
             yield p
